@@ -416,3 +416,254 @@ package providers
 //@ safety
 //@ prop C14 C19
 //@ ensures[no-address-is-an-error] ret1 == nil ==> called(String#0)
+
+// ------------------------------------------------------------------ C08 / C14: the GitHub provider's own restrictions (org, team, repository, user)
+// the restriction options are written by the three setters, which only the constructor calls; the constructor copies the options
+//@ nonnil GitHubProvider.ProviderData
+//@ stable GitHubProvider.ProviderData GitHubProvider.Org GitHubProvider.Team GitHubProvider.Repo GitHubProvider.Token GitHubProvider.Users
+//@ prop C08
+//@ scan[github-org-team-written-by-its-setter] field-writers GitHubProvider.Org providers.(*GitHubProvider).setOrgTeam
+//@ scan[github-team-written-by-its-setter] field-writers GitHubProvider.Team providers.(*GitHubProvider).setOrgTeam
+//@ scan[github-repo-written-by-its-setter] field-writers GitHubProvider.Repo providers.(*GitHubProvider).setRepo
+//@ scan[github-token-written-by-its-setter] field-writers GitHubProvider.Token providers.(*GitHubProvider).setRepo
+//@ scan[github-users-written-by-its-setter] field-writers GitHubProvider.Users providers.(*GitHubProvider).setUsers
+//@ scan[github-org-team-set-by-the-constructor-only] callers (*GitHubProvider).setOrgTeam providers.NewGitHubProvider
+//@ scan[github-repo-set-by-the-constructor-only] callers (*GitHubProvider).setRepo providers.NewGitHubProvider
+//@ scan[github-users-set-by-the-constructor-only] callers (*GitHubProvider).setUsers providers.NewGitHubProvider
+
+//@ func NewGitHubProvider
+//@ safety
+//@ prop C08
+//@ ensures[restrictions-are-the-configured-ones] result != nil && result.Org == opts.Org && result.Team == opts.Team && result.Repo == opts.Repo
+//@     && result.Token == opts.Token && result.Users == opts.Users && result.ProviderData == p
+
+// a login is enriched only when every step answered without error, in particular the restriction check
+// every provider constructor runs setProviderDefaults, after which none of the four endpoint URLs is nil
+//@ stable ProviderData.ValidateURL
+//@ prop C14 C19
+//@ scan[stable:provider-validate-url-written-by-construction-only] field-writers ProviderData.ValidateURL providers.newProviderDataFromConfig providers.(*ProviderData).setProviderDefaults providers.NewAzureProvider
+//@ func defaultURL
+//@ safety
+//@ nomod
+//@ nilable u d
+//@ prop C14 C19
+//@ ensures[never-nil] result != nil
+
+//@ func (*ProviderData).setProviderDefaults
+//@ safety
+//@ prop C14 C19
+//@ ensures[config:provider-urls-defaulted] p.LoginURL != nil && p.RedeemURL != nil && p.ProfileURL != nil && p.ValidateURL != nil
+
+//@ func (*GitHubProvider).makeGitHubAPIEndpoint
+//@ safety
+//@ nomod
+//@ nilable params
+//@ prop C14 C19
+//@ requires[config:provider-urls-defaulted] p.ValidateURL != nil
+//@ ensures[never-nil] result != nil
+
+//@ func (*GitHubProvider).EnrichSession
+//@ safety
+//@ prop C08 C14
+//@ ensures[every-step-must-succeed] result == nil ==> called(getOrgAndTeam) && ret(getOrgAndTeam) == nil && called(checkRestrictions)
+//@     && ret(checkRestrictions) == nil && called(getEmail) && ret(getEmail) == nil && called(getUser) && ret(getUser) == nil
+//@ ensures[restrictions-are-checked-on-this-session] called(checkRestrictions) ==> arg(checkRestrictions, 2) == s
+//@ ensures[a-failed-restriction-check-is-an-error] called(checkRestrictions) && ret(checkRestrictions) != nil ==> result != nil
+
+//@ func (*GitHubProvider).checkRestrictions
+//@ safety
+//@ prop C08 C14
+//@ ensures[user-lookup-failure-is-an-error] called(checkUserRestriction) && ret1(checkUserRestriction) != nil ==> result != nil
+//@ ensures[accepted-only-as-listed-user-or-through-the-org-team-repo-checks] result == nil ==> ret0(checkUserRestriction)
+//@     || (called(hasOrgAndTeamAccess) && ret(hasOrgAndTeamAccess) == nil && arg(hasOrgAndTeamAccess, 1) == s
+//@         && (p.Org == "" && p.Repo != "" && p.Token == "" ==> called(hasRepoAccess) && ret(hasRepoAccess) == nil))
+//@ at call hasRepoAccess assert[repository-access-of-this-sessions-token] arg(hasRepoAccess, 2) == s.AccessToken
+
+//@ func (*GitHubProvider).checkUserRestriction
+//@ safety
+//@ prop C08 C14
+//@ ensures[no-user-list-no-verdict] len(p.Users) == 0 ==> !ret0 && ret1 == nil
+//@ ensures[verified-only-by-the-user-endpoint] ret0 && ret1 == nil ==> called(hasUser) && ret0(hasUser) && ret1(hasUser) == nil
+//@ at call hasUser assert[user-of-this-sessions-token] arg(hasUser, 2) == s.AccessToken
+//@ ensures[lookup-failure-is-an-error] called(hasUser) && ret1(hasUser) != nil ==> ret1 != nil
+//@ ensures[users-only-configuration-rejects-everybody-else] len(p.Users) != 0 && p.Org == "" && p.Repo == "" && ret1 == nil ==> ret0
+
+//@ func (*GitHubProvider).hasOrgAndTeamAccess
+//@ safety
+//@ prop C08
+//@ ensures[org-and-team-configured-both-are-checked] p.Org != "" && p.Team != "" ==> called(hasOrgAndTeam) && result == ret(hasOrgAndTeam)
+//@     && arg(hasOrgAndTeam, 1) == s
+//@ ensures[org-configured-org-is-checked] p.Org != "" && p.Team == "" ==> called(hasOrg) && result == ret(hasOrg) && arg(hasOrg, 1) == s
+
+//@ func (*GitHubProvider).isVerifiedUser
+//@ safety
+//@ nomod
+//@ prop C08
+//@ loop 0 invariant[no-earlier-user-matches] rangeindex >= -1 && forall j int :: 0 <= j && j <= rangeindex ==> p.Users[j] != username
+//@ ensures[exactly-the-listed-users] result <==> exists k int :: 0 <= k && k < len(p.Users) && p.Users[k] == username
+
+//@ func (*GitHubProvider).hasUser
+//@ safety
+//@ prop C08 C14
+//@ ensures[undecodable-answer-is-an-error] called(UnmarshalInto) && ret(UnmarshalInto) != nil ==> !ret0 && ret1 != nil
+//@ ensures[verified-only-if-the-list-says-so] ret0 ==> ret1 == nil && called(isVerifiedUser) && ret(isVerifiedUser)
+
+//@ func (*GitHubProvider).hasRepoAccess
+//@ safety
+//@ prop C08 C14
+//@ ensures[undecodable-answer-is-an-error] called(UnmarshalInto) && ret(UnmarshalInto) != nil ==> result != nil
+//@ ensures[access-only-from-a-decoded-answer] result == nil ==> called(UnmarshalInto) && ret(UnmarshalInto) == nil
+
+//@ func (*GitHubProvider).getUser
+//@ safety
+//@ prop C08 C14
+//@ ensures[undecodable-answer-is-an-error] called(UnmarshalInto) && ret(UnmarshalInto) != nil ==> result != nil && !stored("SessionState.User")
+//@ ensures[collaborator-check-decides-when-it-applies] called(isCollaborator) && (ret1(isCollaborator) != nil || !ret0(isCollaborator))
+//@     ==> result != nil && !stored("SessionState.User")
+//@ ensures[collaborator-check-applies-to-unlisted-users-of-a-repo-with-a-token] result == nil && !ret(isVerifiedUser) && p.Org == ""
+//@     && p.Repo != "" && p.Token != "" ==> called(isCollaborator) && ret0(isCollaborator) && arg(isCollaborator, 3) == p.Token
+
+//@ func (*GitHubProvider).getEmail
+//@ safety
+//@ prop C14
+//@ ensures[undecodable-answer-is-an-error] called(UnmarshalInto) && ret(UnmarshalInto) != nil ==> result != nil && !stored("SessionState.Email")
+
+//@ func (*GitHubProvider).getOrgAndTeam
+//@ safety
+//@ prop C08 C14
+//@ ensures[both-lookups-must-succeed] result == nil ==> called(getOrgs) && ret(getOrgs) == nil && called(getTeams) && ret(getTeams) == nil
+
+//@ func (*GitHubProvider).getOrgs
+//@ safety
+//@ prop C14
+
+//@ func (*GitHubProvider).getTeams
+//@ safety
+//@ prop C14
+
+//@ func (*GitHubProvider).hasOrg
+//@ safety
+//@ nomod
+//@ prop C08
+
+//@ func (*GitHubProvider).hasOrgAndTeam
+//@ safety
+//@ prop C08
+
+// ------------------------------------------------------------------ C08 / C14: the Bitbucket provider's team and repository restrictions
+//@ nonnil BitbucketProvider.ProviderData
+//@ stable BitbucketProvider.ProviderData BitbucketProvider.Team BitbucketProvider.Repository
+//@ prop C08
+//@ scan[bitbucket-team-written-by-its-setter] field-writers BitbucketProvider.Team providers.(*BitbucketProvider).setTeam
+//@ scan[bitbucket-repository-written-by-its-setter] field-writers BitbucketProvider.Repository providers.(*BitbucketProvider).setRepository
+//@ scan[bitbucket-team-set-by-the-constructor-only] callers (*BitbucketProvider).setTeam providers.NewBitbucketProvider
+//@ scan[bitbucket-repository-set-by-the-constructor-only] callers (*BitbucketProvider).setRepository providers.NewBitbucketProvider
+
+//@ func NewBitbucketProvider
+//@ safety
+//@ prop C08
+//@ ensures[restrictions-are-the-configured-ones] result != nil && result.Team == opts.Team && result.Repository == opts.Repository
+//@     && result.ProviderData == p
+
+// an address (which is what lets the login through) only after every configured membership lookup answered and listed the
+// configured team / repository
+//@ func (*BitbucketProvider).GetEmailAddress
+//@ safety
+//@ prop C08 C14
+//@ requires[config:provider-urls-defaulted] p.ValidateURL != nil
+//@ ensures[undecodable-email-answer-is-an-error] called(UnmarshalInto#0) && ret(UnmarshalInto#0) != nil ==> ret0 == "" && ret1 != nil
+//@ ensures[team-lookup-must-succeed] ret0 != "" && p.Team != "" ==> called(UnmarshalInto#1) && ret(UnmarshalInto#1) == nil
+//@ ensures[repository-lookup-must-succeed] ret0 != "" && p.Repository != "" ==> called(UnmarshalInto#2) && ret(UnmarshalInto#2) == nil
+//@ ensures[failed-lookups-give-no-address] (called(UnmarshalInto#1) && ret(UnmarshalInto#1) != nil)
+//@     || (called(UnmarshalInto#2) && ret(UnmarshalInto#2) != nil) ==> ret0 == "" && ret1 != nil
+
+// ------------------------------------------------------------------ C14 / C05 / C09: Google's own redemption and refresh
+//@ nonnil GoogleProvider.ProviderData DigitalOceanProvider.ProviderData FacebookProvider.ProviderData LinkedInProvider.ProviderData
+//@ nonnil NextcloudProvider.ProviderData KeycloakProvider.ProviderData GoogleProvider.groupValidator
+//@ stable GoogleProvider.ProviderData DigitalOceanProvider.ProviderData FacebookProvider.ProviderData LinkedInProvider.ProviderData
+//@ stable NextcloudProvider.ProviderData KeycloakProvider.ProviderData GoogleProvider.groupValidator
+//@ prop C14 C19
+//@ scan[google-group-validator-written-at-construction-only] field-writers GoogleProvider.groupValidator providers.NewGoogleProvider providers.(*GoogleProvider).setGroupRestriction
+//@ scan[google-group-restriction-set-by-the-constructor-only] callers (*GoogleProvider).setGroupRestriction providers.NewGoogleProvider
+//@ func (*GoogleProvider).Redeem
+//@ safety
+//@ prop C14 C04
+//@ requires[config:provider-urls-defaulted] p.RedeemURL != nil
+//@ ensures[no-code-no-session] code == "" ==> ret1 == ErrMissingCode && ret0 == nil
+//@ ensures[token-endpoint-failure-gives-no-session] called(UnmarshalInto) && ret(UnmarshalInto) != nil ==> ret0 == nil && ret1 != nil
+//@     && !called(claimsFromIDToken)
+//@ ensures[undecodable-or-unverified-id-token-gives-no-session] called(claimsFromIDToken) && ret1(claimsFromIDToken) != nil ==> ret0 == nil && ret1 != nil
+//@ ensures[session-only-from-decoded-claims] ret0 != nil ==> ret1 == nil && called(claimsFromIDToken) && ret1(claimsFromIDToken) == nil
+//@     && ret0 == recv(CreatedAtNow)
+//@ at call CreatedAtNow assert[identity-is-what-the-id-token-says] recv(CreatedAtNow).Email == ret0(claimsFromIDToken).Email
+//@     && recv(CreatedAtNow).User == ret0(claimsFromIDToken).Subject && ret1(claimsFromIDToken) == nil
+//@ ensures[error-means-no-session] ret1 != nil ==> ret0 == nil
+//@ prop C05
+//@ at call Add#5 assert[the-logins-pkce-verifier-goes-to-the-token-endpoint] arg(Add#5, 1) == "code_verifier" && arg(Add#5, 2) == codeVerifier
+//@     && codeVerifier != ""
+//@ ensures[a-verifier-is-always-sent-when-there-is-one] codeVerifier != "" && called(Do) ==> called(Add#5)
+//@ at call Add#3 assert[the-callbacks-code-is-redeemed] arg(Add#3, 1) == "code" && arg(Add#3, 2) == code
+//@ prop C09
+//@ ensures[redeemed-session-is-stamped] ret1 == nil ==> called(CreatedAtNow) && recv(CreatedAtNow) == ret0 && called(ExpiresIn) && recv(ExpiresIn) == ret0
+
+//@ func (*GoogleProvider).redeemRefreshToken
+//@ safety
+//@ prop C14 C12
+//@ requires[config:provider-urls-defaulted] p.RedeemURL != nil
+//@ ensures[failure-assigns-nothing-to-the-session] result != nil ==> !stored("SessionState.AccessToken") && !stored("SessionState.IDToken")
+//@     && !called(CreatedAtNow) && !called(ExpiresIn)
+//@ ensures[token-endpoint-failure-is-an-error] called(UnmarshalInto) && ret(UnmarshalInto) != nil ==> result != nil
+//@ at call Add#2 assert[this-sessions-refresh-token-is-redeemed] arg(Add#2, 1) == "refresh_token" && arg(Add#2, 2) == s.RefreshToken
+//@ prop C09
+//@ ensures[refreshed-session-is-restamped] result == nil ==> called(CreatedAtNow) && recv(CreatedAtNow) == s && called(ExpiresIn) && recv(ExpiresIn) == s
+
+//@ func (*GoogleProvider).RefreshSession
+//@ safety
+//@ nilable s
+//@ prop C14 C12 C08
+//@ ensures[no-refresh-token-no-refresh] s == nil ==> !ret0 && ret1 == nil && !called(redeemRefreshToken)
+//@ ensures[refreshed-only-on-success] ret0 ==> ret1 == nil && called(redeemRefreshToken) && ret(redeemRefreshToken) == nil
+//@     && arg(redeemRefreshToken, 2) == s
+//@ ensures[refresh-failure-is-an-error] called(redeemRefreshToken) && ret(redeemRefreshToken) != nil ==> !ret0 && ret1 != nil
+//@ ensures[error-not-refreshed] ret1 != nil ==> !ret0
+
+// ------------------------------------------------------------------ C14: the small providers' profile lookups: no address / identity from a failed or undecodable answer
+//@ func (*DigitalOceanProvider).GetEmailAddress
+//@ safety
+//@ prop C14
+//@ requires[config:provider-urls-defaulted] p.ProfileURL != nil
+//@ ensures[no-token-no-lookup] old(s.AccessToken) == "" ==> ret0 == "" && ret1 != nil && !called(Do)
+//@ ensures[failed-lookup-gives-no-address] called(UnmarshalSimpleJSON) && ret1(UnmarshalSimpleJSON) != nil ==> ret0 == "" && ret1 != nil
+//@ ensures[missing-or-mistyped-address-is-an-error] called(String#1) && ret1(String#1) != nil ==> ret0 == "" && ret1 != nil
+
+//@ func (*FacebookProvider).GetEmailAddress
+//@ safety
+//@ prop C14
+//@ requires[config:provider-urls-defaulted] p.ProfileURL != nil
+//@ ensures[no-token-no-lookup] old(s.AccessToken) == "" ==> ret0 == "" && ret1 != nil && !called(Do)
+//@ ensures[failed-lookup-gives-no-address] called(UnmarshalInto) && ret(UnmarshalInto) != nil ==> ret0 == "" && ret1 != nil
+//@ ensures[an-address-or-an-error] ret1 == nil ==> ret0 != ""
+
+//@ func (*LinkedInProvider).GetEmailAddress
+//@ safety
+//@ prop C14
+//@ requires[config:provider-urls-defaulted] p.ProfileURL != nil
+//@ ensures[no-token-no-lookup] old(s.AccessToken) == "" ==> ret0 == "" && ret1 != nil && !called(Do)
+//@ ensures[failed-lookup-gives-no-address] called(UnmarshalSimpleJSON) && ret1(UnmarshalSimpleJSON) != nil ==> ret0 == "" && ret1 != nil
+//@ ensures[missing-or-mistyped-address-is-an-error] called(String#1) && ret1(String#1) != nil ==> ret0 == "" && ret1 != nil
+
+//@ func (*NextcloudProvider).EnrichSession
+//@ safety
+//@ prop C14
+//@ requires[config:provider-urls-defaulted] p.ProfileURL != nil && p.ValidateURL != nil
+//@ ensures[failed-lookup-assigns-nothing] called(UnmarshalSimpleJSON) && ret1(UnmarshalSimpleJSON) != nil ==> result != nil
+//@     && !stored("SessionState.User") && !stored("SessionState.Email") && !stored("SessionState.Groups")
+//@ ensures[identity-complete-or-an-error] result == nil ==> stored("SessionState.User") && stored("SessionState.Email")
+
+//@ func (*KeycloakProvider).EnrichSession
+//@ safety
+//@ prop C14
+//@ requires[config:provider-urls-defaulted] p.ProfileURL != nil && p.ValidateURL != nil
+//@ ensures[failed-lookup-assigns-nothing] called(UnmarshalSimpleJSON) && ret1(UnmarshalSimpleJSON) != nil ==> result != nil
+//@     && !stored("SessionState.User") && !stored("SessionState.Email") && !stored("SessionState.Groups")
+//@ ensures[an-address-or-an-error] result == nil ==> stored("SessionState.Email")
